@@ -105,6 +105,7 @@ N('benign.markdown-text-through-local', [(P + 'common/base.py', "            if 
 B('C14.list-plus-loosely-validated-field', ['C14'], [(P + 'ssh/key.py', "            ('certificate_chain', [self.public_key] + list(self.issuer_certificates)),", "            ('certificate_chain', [self.public_key] + self.issuer_certificates),")], mention='C14.R12')
 B('C14.json-date-in-its-own-zone', ['C14'], [(P + 'common/base.py', "            result = str(Serializable._get_date_time_in_utc(obj))", "            result = str(obj)")], mention='C14.R13')
 B('C01.truth-value-field-admits-integers', ['C01'], [(P + 'ssh/subprotocol.py', "    first_kex_packet_follows = attr.ib(converter=bool, validator=attr.validators.instance_of(bool), default=False)", "    first_kex_packet_follows = attr.ib(validator=attr.validators.instance_of(six.integer_types), default=0)")], mention='C01.R13')
+B('C07.trailing-comma-in-name-list-accepted', ['C07', 'C16'], [(P + 'common/parse.py', "                if not skip_empty:\n                    # a separator at the very end is followed by an empty item\n                    raise InvalidValue(self._parsable[item_offset:], type(self), name)\n                break", "                break")], mention='empty-name')
 B('C02.unsupported-width', ['C02'], [(P + 'tls/extension.py', "        parser.parse_numeric('record_size_limit', 2)", "        parser.parse_numeric('record_size_limit', 5)")], props=['C02'])
 B('C02.raw-index', ['C02'], [(P + 'tls/extension.py', "        if parser['extension_data']:\n            raise InvalidValue(parser['extension_data'], cls)",
                              "        if parser['extension_data'][0]:\n            raise InvalidValue(parser['extension_data'], cls)")])
